@@ -320,6 +320,30 @@ func registerVX() {
 		defer delete(m.env, "nilEqEmpty")
 		return m.deepEqual(fr, a.T, a.V, b.V, 0)
 	}
+	// Snapshot(ptr): a deep copy of *ptr (maps, slices and pointers followed;
+	// opaque library objects, channels and locks shared). SameAs(snapshot, ptr):
+	// *ptr is deeply equal to the snapshot.
+	intrinsics[p+"Snapshot"] = func(m *Machine, fr *frame, args []Value) Value {
+		a := args[0].(Iface)
+		ptr, ok := a.V.(*Value)
+		if !ok || ptr == nil {
+			m.unsupported("vx.Snapshot of a non-pointer")
+		}
+		cp := new(Value)
+		*cp = deepCopy(*ptr, map[interface{}]Value{})
+		return Iface{T: a.T, V: cp}
+	}
+	intrinsics[p+"SameAs"] = func(m *Machine, fr *frame, args []Value) Value {
+		a, b := args[0].(Iface), args[1].(Iface)
+		if a.T == nil || b.T == nil || !types.Identical(a.T, b.T) {
+			m.unsupported("vx.SameAs: snapshot and object of different types")
+		}
+		m.env["snapshotEq"] = true
+		m.env["nilEqEmpty"] = true
+		defer delete(m.env, "snapshotEq")
+		defer delete(m.env, "nilEqEmpty")
+		return m.deepEqual(fr, deref(a.T), *a.V.(*Value), *b.V.(*Value), 0)
+	}
 	intrinsics[p+"And"] = func(m *Machine, fr *frame, args []Value) Value {
 		return m.C.And(args[0].(*smt.Term), args[1].(*smt.Term))
 	}
@@ -523,7 +547,35 @@ func registerStd() {
 	}
 	I["fmt.Sprintf"] = func(m *Machine, fr *frame, args []Value) Value {
 		f, _ := concreteStr(args[0])
-		return "<fmt:" + f + ">"
+		// concrete arguments are formatted for real (file names, keys);
+		// anything symbolic yields a placeholder that still depends on the
+		// concrete arguments
+		var goArgs []interface{}
+		allConcrete := true
+		for _, a := range variadic(args[1]) {
+			v := a
+			if itf, ok := a.(Iface); ok {
+				v = itf.V
+				if s, ok := concreteStr(v); ok {
+					goArgs = append(goArgs, s)
+					continue
+				}
+				if t, ok := v.(*smt.Term); ok && t.IsConst() && t.W > 0 {
+					if itf.T != nil && isSigned(itf.T) {
+						goArgs = append(goArgs, t.Signed())
+					} else {
+						goArgs = append(goArgs, t.Val)
+					}
+					continue
+				}
+			}
+			allConcrete = false
+			goArgs = append(goArgs, "?")
+		}
+		if allConcrete {
+			return fmt.Sprintf(f, goArgs...)
+		}
+		return "<fmt:" + f + ":" + fmt.Sprint(goArgs...) + ">"
 	}
 	I["fmt.Sprint"] = func(m *Machine, fr *frame, args []Value) Value { return "<fmt>" }
 	I["fmt.Sprintln"] = func(m *Machine, fr *frame, args []Value) Value { return "<fmt>\n" }
@@ -901,6 +953,7 @@ func registerStd() {
 
 	// os
 	I["os.WriteFile"] = func(m *Machine, fr *frame, args []Value) Value {
+		m.ioYield()
 		name, _ := concreteStr(args[0])
 		files, _ := m.env["files"].(map[string][]*smt.Term)
 		if files == nil {
@@ -925,6 +978,35 @@ func registerStd() {
 			return Tuple{Slice{}, m.newError("open " + name + ": no such file")}
 		}
 		return Tuple{m.bytesToSlice(append([]*smt.Term{}, b...)), Iface{}}
+	}
+	I["os.Getpid"] = func(m *Machine, fr *frame, args []Value) Value { return m.i64(4242) }
+	I["os.Rename"] = func(m *Machine, fr *frame, args []Value) Value {
+		m.ioYield()
+		from, ok1 := concreteStr(args[0])
+		to, ok2 := concreteStr(args[1])
+		if !ok1 || !ok2 {
+			m.unsupported("os.Rename with symbolic names")
+		}
+		files, _ := m.env["files"].(map[string][]*smt.Term)
+		b, ok := files[from]
+		if !ok {
+			return m.newError("rename " + from + " " + to + ": no such file or directory")
+		}
+		files[to] = b
+		delete(files, from)
+		return Iface{}
+	}
+	I["os.Remove"] = func(m *Machine, fr *frame, args []Value) Value {
+		name, ok := concreteStr(args[0])
+		if !ok {
+			m.unsupported("os.Remove with a symbolic name")
+		}
+		files, _ := m.env["files"].(map[string][]*smt.Term)
+		if _, ok := files[name]; !ok {
+			return m.newError("remove " + name + ": no such file or directory")
+		}
+		delete(files, name)
+		return Iface{}
 	}
 	I["os.Getenv"] = func(m *Machine, fr *frame, args []Value) Value { return "" }
 
